@@ -668,9 +668,12 @@ def synzero(ctx):
     loops = [s for s in psts if s[0] == "for"]
     ok = False
     det = None
-    if len(loops) == 1:
+    # roles, not names: the flag is the local the function returns; the output slice is its second parameter
+    FLAG = psts[-1][1][1] if psts and psts[-1][0] == "expr" and psts[-1][1][0] == "var" else None
+    OUT = pe["params"][1]["pat"]["name"].split("#")[0] if len(pe["params"]) > 1 and pe["params"][1].get("pat", {}).get("k") == "Bind" else None
+    if len(loops) == 1 and FLAG and OUT:
         it = strip_into_iter(loops[0][2])
-        over_out = it[0] == "call" and (it[1].endswith("iter_mut") or it[1].endswith("::iter")) and is_var(strip_into_iter(it[2][0]), "out")
+        over_out = it[0] == "call" and (it[1].endswith("iter_mut") or it[1].endswith("::iter")) and is_var(strip_into_iter(it[2][0]), OUT)
         ovar = loops[0][1][0].split("#")[0]
         body = loops[0][3]
         # expressions that denote this iteration's syndrome: `*o` after the store, or an immutable local that is stored to `*o`
@@ -698,33 +701,33 @@ def synzero(ctx):
                 if is_zero(z) and ((is_var(v, ovar) and stored and stored[0] < pos) or (v[0] == "var" and v[1] in val_vars)):
                     return True
             return False
-        all_sets = [st for st in T.stmt_walk(body) if st[0] in ("assign", "assignop") and is_var(st[1] if st[0] == "assign" else st[2], "errors")]
+        all_sets = [st for st in T.stmt_walk(body) if st[0] in ("assign", "assignop") and is_var(st[1] if st[0] == "assign" else st[2], FLAG)]
         good = 0
         for k, st in enumerate(body):
-            if st[0] == "assign" and is_var(st[1], "errors"):
+            if st[0] == "assign" and is_var(st[1], FLAG):
                 rhs = st[2]
                 det = T.sx_show(rhs)
-                if rhs[0] == "logic" and rhs[1] == "Or" and any(is_var(p2, "errors") for p2 in (rhs[2], rhs[3])) and any(nonzero_test(p2, k) for p2 in (rhs[2], rhs[3])):
+                if rhs[0] == "logic" and rhs[1] == "Or" and any(is_var(p2, FLAG) for p2 in (rhs[2], rhs[3])) and any(nonzero_test(p2, k) for p2 in (rhs[2], rhs[3])):
                     good += 1
-                elif rhs[0] == "bin" and rhs[1] == "BitOr" and any(is_var(p2, "errors") for p2 in (rhs[2], rhs[3])) and any(nonzero_test(p2, k) for p2 in (rhs[2], rhs[3])):
+                elif rhs[0] == "bin" and rhs[1] == "BitOr" and any(is_var(p2, FLAG) for p2 in (rhs[2], rhs[3])) and any(nonzero_test(p2, k) for p2 in (rhs[2], rhs[3])):
                     good += 1
-            elif st[0] == "assignop" and is_var(st[2], "errors") and st[1] == "BitOrAssign" and nonzero_test(st[3], k):
+            elif st[0] == "assignop" and is_var(st[2], FLAG) and st[1] == "BitOrAssign" and nonzero_test(st[3], k):
                 good += 1
             elif st[0] == "if" and isinstance(st[1], tuple) and st[1][0] != "iflet" and nonzero_test(st[1], k):
                 # `if v != GF(0) { errors = true; }`: the flag is only ever set inside the loop
-                inner = [x for x in T.stmt_walk(st[2]) if x[0] in ("assign", "assignop") and is_var(x[1] if x[0] == "assign" else x[2], "errors")]
-                top = [x for x in st[2] if x[0] == "assign" and is_var(x[1], "errors") and x[2] == ("lit", True)]
-                in_else = [x for x in T.stmt_walk(st[3]) if x[0] in ("assign", "assignop") and is_var(x[1] if x[0] == "assign" else x[2], "errors")]
+                inner = [x for x in T.stmt_walk(st[2]) if x[0] in ("assign", "assignop") and is_var(x[1] if x[0] == "assign" else x[2], FLAG)]
+                top = [x for x in st[2] if x[0] == "assign" and is_var(x[1], FLAG) and x[2] == ("lit", True)]
+                in_else = [x for x in T.stmt_walk(st[3]) if x[0] in ("assign", "assignop") and is_var(x[1] if x[0] == "assign" else x[2], FLAG)]
                 if len(inner) == 1 and len(top) == 1 and not in_else:
                     good += 1
                     det = "if-form"
         # every store to the flag inside the loop is one of the accepted OR-updates (nothing clears it), and there is one
         okupd = good >= 1 and len(all_sets) == good and len(stored) == 1
-        init = [st for st in psts if st[0] == "let" and st[1].split("#")[0] == "errors"]
+        init = [st for st in psts if st[0] == "let" and st[1].split("#")[0] == FLAG]
         okinit = len(init) == 1 and init[0][3] == ("lit", False)
-        other_sets = [st for st in T.stmt_walk(psts) if st[0] in ("assign", "assignop") and is_var(st[1] if st[0] == "assign" else st[2], "errors")]
+        other_sets = [st for st in T.stmt_walk(psts) if st[0] in ("assign", "assignop") and is_var(st[1] if st[0] == "assign" else st[2], FLAG)]
         tail = psts[-1]
-        ok = over_out and okupd and okinit and len(other_sets) == len(all_sets) and tail[0] == "expr" and is_var(tail[1], "errors")
+        ok = over_out and okupd and okinit and len(other_sets) == len(all_sets) and tail[0] == "expr" and is_var(tail[1], FLAG)
     obs.append(Ob(r, "pee-or", ok, "primitive_element_evaluation returns true iff some evaluated syndrome is non-zero (OR over every entry of `out`)", site=T.span_str(pe["span"]), detail=det))
     # decode(): Ok only after every block returned Ok
     dsts, _ = T.fn_stmts(f, DEC)
@@ -979,6 +982,9 @@ def gather_scatter(ctx):
                   "the corrected codeword is addressed exactly like the word whose syndromes were computed "
                   "(same data/error strided chain, position n-i-1; or data[p*stride] / error[(p-n_data)*stride])%s" % ("" if ok else "; found: %s" % form),
                   site=site, detail=det))
-    obs.append(Ob(r, "n", is_n(("var", "n", None)) if "n" in pure else False, "n = number of elements of the data view + number of elements of the error view (ceil((len - offset) / stride) each)", detail=T.sx_show(expand(("var", "n", None)), 200) if "n" in pure else None))
+    # the word length n: whatever it is called, it is the bound of the range rejection, and it is the sum of the two view lengths
+    nvars = [k for k in pure if is_n(("var", k, None))]
+    obs.append(Ob(r, "n", bool(nvars) and rej, "n = number of elements of the data view + number of elements of the error view (ceil((len - offset) / stride) each), and it is the bound of the range rejection",
+                  detail=[T.sx_show(expand(("var", k, None)), 200) for k in nvars] or None))
     obs += floor(obs, r, 4, "gather/scatter obligations")
     return obs
